@@ -2,6 +2,7 @@ import ZapVerif.Model.Sugar
 import ZapVerif.Proofs.Sugar
 import ZapVerif.Gen.Callers
 import ZapVerif.Proofs.TransSweeten
+import ZapVerif.Proofs.TransMessage
 /-! # C14 — SugaredLogger never drops or misattributes loosely-typed arguments
 
 Objects: `sweep`/`sweeten` mirror `sweetenFields`; `loopGo` is the same loop with Go's index expressions checked;
@@ -516,5 +517,142 @@ theorem encPar_answers (cap : Val → Int) :
     (∀ a, (encPar cap).asErr (encArg a) = match a with | .err e => some (.bytes e) | _ => none) ∧
     (∀ a, (encPar cap).asStr (encArg a) = match a with | .str s => some s | _ => none) := by
   refine ⟨?_, ?_, ?_⟩ <;> intro a <;> cases a <;> rfl
+
+end ZapVerif.C14
+
+/-! ## `getMessage`, `getMessageln`, `log`, `logln` ARE the source (translator round 4, table `Gen/TransMessage.lean`)
+
+sugar.go `getMessage`, `getMessageln` and the WHOLE of `(*SugaredLogger).log` / `logln` (the table TransLogger translates
+only their guards), translated mechanically, are interpreted with `fmt.Sprint` / `Sprintf` / `Sprintln`, the `.(string)`
+assertion, the core's `Enabled`, the base logger's `Check` and the sweetening of the context (TransSweeten) as parameters;
+`Check`, `sweetenFields` and `ce.Write` are recorded.  `msgSpec_is_getMessage` says the message functions are
+`Sugar.getMessage` / `getMessageln`, the functions of `message_forms`. -/
+set_option linter.unusedSimpArgs false
+namespace ZapVerif.C14
+open ZapVerif ZapVerif.GoMini ZapVerif.TransMessage ZapVerif.Gen.TransMessage
+
+/-- `getMessage`: no arguments — the template verbatim; a template — `Sprintf`; ONE argument that is a string — that
+    string; anything else — `Sprint` -/
+theorem getMessage_exec_matches_source (P : Par) (t : Bytes) (args : List Val) (fl : Env) (fuel : Nat) :
+    (exec (X P) (fuel + 1) getMessage_body ⟨[("p0", .bytes t), ("p1", .list args)], fl⟩).fin =
+      some ([.bytes (msgSpec P t args)], fl) := by
+  rw [exec_succ]
+  unfold msgSpec
+  cases args with
+  | nil => simp [getMessage_body]
+  | cons a r =>
+    have hp : ¬ ((r.length : Int) + 1 = 0) := by omega
+    cases t with
+    | cons c cs => simp [getMessage_body, hp]
+    | nil =>
+      cases r with
+      | nil =>
+        cases hs : P.asStr a with
+        | some s => simp [getMessage_body, hs]
+        | none => simp [getMessage_body, hs]
+      | cons b r' =>
+        have hp2 : ¬ ((r'.length : Int) + 1 + 1 = 1) := by omega
+        have hp3 : ¬ ((r'.length : Int) + 1 + 1 = 0) := by omega
+        simp [getMessage_body, hp2, hp3]
+
+theorem getMessage_matches_source (P : Par) (t : Bytes) (args : List Val) (fl : Env) (fuel : Nat) :
+    run (X P) (fuel + 1) "getMessage" [.bytes t, .list args] fl = .done [.bytes (msgSpec P t args)] fl :=
+  run_of_fin (X P) _ _ Gen.TransMessage.getMessage _ _ _ _ rfl rfl (getMessage_exec_matches_source P t args fl fuel)
+
+/-- `getMessageln`: `Sprintln` without its last byte; `msg[:len(msg)-1]` cannot panic because `Sprintln` ends in a
+    newline (the hypothesis: its result is not empty) -/
+theorem getMessageln_exec_matches_source (P : Par) (args : List Val) (fl : Env) (fuel : Nat)
+    (hne : P.sprintln args ≠ []) (hlen : ((P.sprintln args).length : Int) < 9223372036854775808) :
+    (exec (X P) (fuel + 1) getMessageln_body ⟨[("p0", .list args)], fl⟩).fin = some ([.bytes (msglnSpec P args)], fl) := by
+  rw [exec_succ]
+  have hpos : 0 < (P.sprintln args).length := List.length_pos_iff.mpr hne
+  have hw : wrap .int (((P.sprintln args).length : Int) - 1) = ((P.sprintln args).length : Int) - 1 := by
+    rw [wrap_int_id] <;> omega
+  have hc : (0 : Int) ≤ ((P.sprintln args).length : Int) - 1 ∧ ((P.sprintln args).length : Int) - 1 ≤ (P.sprintln args).length := by omega
+  have ht : (((P.sprintln args).length : Int) - 1).toNat = (P.sprintln args).length - 1 := by omega
+  have h1 : (1 : Int) ≤ ((P.sprintln args).length : Int) := by omega
+  simp [getMessageln_body, hw, hc, ht, h1, msglnSpec, List.dropLast_eq_take]
+
+theorem getMessageln_matches_source (P : Par) (args : List Val) (fl : Env) (fuel : Nat)
+    (hne : P.sprintln args ≠ []) (hlen : ((P.sprintln args).length : Int) < 9223372036854775808) :
+    run (X P) (fuel + 1) "getMessageln" [.list args] fl = .done [.bytes (msglnSpec P args)] fl :=
+  run_of_fin (X P) _ _ Gen.TransMessage.getMessageln _ _ _ _ rfl rfl (getMessageln_exec_matches_source P args fl fuel hne hlen)
+
+
+/-- what `log` / `logln` record after the guard, for the message `m`: the base logger's `Check(lvl, m)`; if it answers
+    an entry, the sweetening of the CONTEXT (with skip 1) and then `Write` of exactly those fields on that entry -/
+def logTrace (P : Par) (base : Val) (l : Int) (m : Bytes) (context : List Val) : List Val :=
+  .list [TransMessage.nm "Logger.Check", base, .int l, .bytes m] ::
+    (if (P.check base l m).isEmpty then []
+     else [.list [TransMessage.nm "Sugar.sweetenFields", .list context, .int 1],
+           .list [TransMessage.nm "CE.Write", .list (P.check base l m), .list (P.sweeten context)]])
+
+/-- `(*SugaredLogger).log`, the whole function: a level below DPanic the core does not enable does NOTHING (nothing is
+    formatted, nobody is asked); otherwise the message is `getMessage(template, fmtArgs)` and `logTrace` happens -/
+theorem Sugar_log_matches_source (P : Par) (base : Val) (l : Int) (t : Bytes) (args context ev : List Val) (fuel : Nat) :
+    run (X P) (fuel + 2) "Sugar_log" [.int l, .bytes t, .list args, .list context] [("ev", .list ev), ("base", base)] =
+      .done [] [("ev", .list (if l < 3 ∧ P.cen l = false then ev else ev ++ logTrace P base l (msgSpec P t args) context)), ("base", base)] := by
+  have hcall : ∀ σ : State, retK σ [.loc "l0"] "getMessage"
+      (exec (X P) (fuel + 1) getMessage_body ⟨[("p0", .bytes t), ("p1", .list args)], [("ev", .list ev), ("base", base)]⟩) = _ :=
+    fun σ => retK_of_fin1 σ _ _ _ _ _ (getMessage_exec_matches_source P t args _ fuel)
+  apply run_of_fin (X P) _ _ Gen.TransMessage.Sugar_log _ _ _ _ rfl rfl
+  rw [exec_succ]
+  by_cases hl : l < 3
+  · cases hc : P.cen l
+    · simp [Sugar_log_body, hl, hc]
+    · cases hk : P.check base l (msgSpec P t args) with
+      | nil => simp [Sugar_log_body, hl, hc, hcall, hk, logTrace, nm_check]
+      | cons x xs =>
+        have hp : ¬ ((xs.length : Int) + 1 = 0) := by omega
+        simp [Sugar_log_body, hl, hc, hcall, hk, hp, logTrace, nm_check, nm_sweeten, nm_ceWrite]
+  · cases hk : P.check base l (msgSpec P t args) with
+    | nil => simp [Sugar_log_body, hl, hcall, hk, logTrace, nm_check]
+    | cons x xs =>
+      have hp : ¬ ((xs.length : Int) + 1 = 0) := by omega
+      simp [Sugar_log_body, hl, hcall, hk, hp, logTrace, nm_check, nm_sweeten, nm_ceWrite]
+
+theorem Sugar_logln_matches_source (P : Par) (base : Val) (l : Int) (args context ev : List Val) (fuel : Nat)
+    (hne : P.sprintln args ≠ []) (hlen : ((P.sprintln args).length : Int) < 9223372036854775808) :
+    run (X P) (fuel + 2) "Sugar_logln" [.int l, .list args, .list context] [("ev", .list ev), ("base", base)] =
+      .done [] [("ev", .list (if l < 3 ∧ P.cen l = false then ev else ev ++ logTrace P base l (msglnSpec P args) context)), ("base", base)] := by
+  have hcall : ∀ σ : State, retK σ [.loc "l0"] "getMessageln"
+      (exec (X P) (fuel + 1) getMessageln_body ⟨[("p0", .list args)], [("ev", .list ev), ("base", base)]⟩) = _ :=
+    fun σ => retK_of_fin1 σ _ _ _ _ _ (getMessageln_exec_matches_source P args _ fuel hne hlen)
+  apply run_of_fin (X P) _ _ Gen.TransMessage.Sugar_logln _ _ _ _ rfl rfl
+  rw [exec_succ]
+  by_cases hl : l < 3
+  · cases hc : P.cen l
+    · simp [Sugar_logln_body, hl, hc]
+    · cases hk : P.check base l (msglnSpec P args) with
+      | nil => simp [Sugar_logln_body, hl, hc, hcall, hk, logTrace, nm_check]
+      | cons x xs =>
+        have hp : ¬ ((xs.length : Int) + 1 = 0) := by omega
+        simp [Sugar_logln_body, hl, hc, hcall, hk, hp, logTrace, nm_check, nm_sweeten, nm_ceWrite]
+  · cases hk : P.check base l (msglnSpec P args) with
+    | nil => simp [Sugar_logln_body, hl, hcall, hk, logTrace, nm_check]
+    | cons x xs =>
+      have hp : ¬ ((xs.length : Int) + 1 = 0) := by omega
+      simp [Sugar_logln_body, hl, hcall, hk, hp, logTrace, nm_check, nm_sweeten, nm_ceWrite]
+
+/-- the translated `getMessage` / `getMessageln` ARE `Sugar.getMessage` / `getMessageln` (the functions of
+    `message_forms`), for the `fmt` the parameters induce on any encoding of the arguments on which the `.(string)`
+    assertion answers the constructor -/
+theorem msgSpec_is_getMessage (P : Par) (enc : Sugar.Arg → Val)
+    (hs : ∀ a, P.asStr (enc a) = match a with | .str s => some s | _ => none) (t : Bytes) (args : List Sugar.Arg) :
+    msgSpec P t (args.map enc) =
+      Sugar.getMessage ⟨fun as => P.sprint (as.map enc), fun t as => P.sprintf t (as.map enc), fun as => P.sprintln (as.map enc)⟩ t args ∧
+    msglnSpec P (args.map enc) =
+      Sugar.getMessageln ⟨fun as => P.sprint (as.map enc), fun t as => P.sprintf t (as.map enc), fun as => P.sprintln (as.map enc)⟩ args := by
+  refine ⟨?_, rfl⟩
+  unfold msgSpec Sugar.getMessage
+  cases args with
+  | nil => simp
+  | cons a r =>
+    cases t with
+    | cons c cs => simp
+    | nil =>
+      cases r with
+      | nil => cases a <;> simp [hs]
+      | cons b r' => simp
 
 end ZapVerif.C14
